@@ -43,6 +43,9 @@ def struct_field_lists(srcroot: str) -> Dict[str, List[str]]:
     return out
 
 
+_FAST: Dict[str, int] = {}
+
+
 class Env:
     """one per scenario run (shared across paths: only immutable tables live here)"""
 
@@ -169,6 +172,48 @@ class Env:
         return NotImplemented
 
     def model(self, it: Interp, name: str, t: M.Terminator, args: List[Any], fr) -> Any:
+        # ---- fast paths for the hottest modelled callees (classified once per name) ----
+        code = _FAST.get(name)
+        if code is None:
+            if name.endswith('Linked as Deref>::deref') or name.endswith('Linked as DerefMut>::deref_mut'):
+                code = 1
+            elif name.endswith('Guard::protect'):
+                code = 2
+            elif name.rsplit('::', 1)[-1] == 'is_null' and 'ptr::' in name:
+                code = 3
+            elif name.rsplit('::', 1)[-1] == 'null_mut':
+                code = 4
+            elif 'sync::atomic::Atomic' in name and name.rsplit('::', 1)[-1] in ('load', 'store'):
+                code = 5
+            elif re.search(r'(^|::)Option::(unwrap|expect)$', name):
+                code = 6
+            else:
+                code = 0
+            _FAST[name] = code
+        if code:
+            if code == 1:
+                p = args[0]
+                return Ptr(p.base, p.path + (('field', 1),))
+            if code == 2:
+                cell = it.load_ptr(args[1])
+                return cell.fields[0]
+            if code == 3 and isinstance(args[0], Ptr):
+                return Sc(args[0].base is None, 'bool')
+            if code == 4:
+                return NULL
+            if code == 5:
+                cell = it.load_ptr(args[0])
+                if isinstance(cell, Agg) and len(cell.fields) == 1:
+                    if name.endswith('load'):
+                        return cell.fields[0]
+                    cell.fields[0] = args[1]
+                    return UNIT
+            if code == 6:
+                o = args[0]
+                if o.variant != 'Some':
+                    it.panics.append('unwrap on None @ %s' % t.span)
+                    raise Unwind('called `Option::unwrap()` on a `None` value @ %s' % t.span)
+                return o.fields[0]
         last = name.rsplit('::', 1)[-1]
         raw = t.callee or ''
 
@@ -402,6 +447,15 @@ class Env:
             if isinstance(v, VecV):
                 v = v.alloc.val
             return Sc(len(v), 'usize')
+        if (name.endswith('as IntoIterator>::into_iter') or name.endswith('as Iterator>::next') or name.endswith('as Iterator>::size_hint')) and args:
+            a0 = args[0]
+            tgt = it.load_ptr(a0) if isinstance(a0, Ptr) else a0
+            if type(tgt).__name__ == 'PyIter':
+                if last == 'into_iter':
+                    return tgt
+                return tgt.next() if last == 'next' else tgt.size_hint()
+        if name.endswith('as IntoIterator>::into_iter') and isinstance(args[0], Agg) and args[0].ty.split('::')[-1] in ('Iter', 'Keys', 'Values', 'NodeIter'):
+            return args[0]          # blanket impl<I: Iterator> IntoIterator for I
         if name.endswith('as IntoIterator>::into_iter') and isinstance(args[0], VecV):
             return Agg('vec::IntoIter', None, [args[0], Sc(0, 'usize')])
         if name.endswith('as Iterator>::next') and isinstance(deref(args[0]), Agg) and deref(args[0]).ty == 'vec::IntoIter':
